@@ -4,6 +4,7 @@
   of a command whose programs satisfy `Mirror`.
 -/
 import Manticore.Lemmas.SmbUnmarshal
+import Manticore.Lemmas.SmbReencode
 namespace Manticore.SmbIR
 open Manticore
 
@@ -114,12 +115,30 @@ theorem mirror_facts {c : Cmd} (hm : Mirror c = true) : ∃ m u, MirrorFacts c m
     · exact h
   · cases hm
 
-/-- **Generic round trip of a mirror-image command** (the property theorem `Manticore.C04.mirror_roundtrip`
-    is this statement). -/
-theorem mirror_roundtrip_core {C : Codecs} {T : String → Prop} (hC : LawfulCodecs C T) (c : Cmd)
+theorem agrees_field {a b : Slot} (h : a.agrees b = true) : a.field = b.field := by
+  cases a <;> cases b <;> simp only [Slot.agrees, Bool.and_eq_true, beq_iff_eq, Bool.false_eq_true] at h
+  all_goals
+    first
+      | exact h.2
+      | exact h.1.2
+
+theorem agreeAll_fields : ∀ (ms us : List Slot), agreeAll ms us = true → ms.map Slot.field = us.map Slot.field
+  | [], [] => fun _ => rfl
+  | [], _ :: _ => fun h => by simp [agreeAll] at h
+  | _ :: _, [] => fun h => by simp [agreeAll] at h
+  | a :: ms, b :: us => fun h => by
+    simp only [agreeAll, Bool.and_eq_true] at h
+    rw [List.map_cons, List.map_cons, agrees_field h.1, agreeAll_fields ms us h.2]
+
+/-- everything the round trip establishes, for the two corollaries -/
+theorem mirror_roundtrip_full {C : Codecs} {T : String → Prop} (hC : LawfulCodecs C T) (c : Cmd)
     (hm : Mirror c = true) (hT : ∀ t ∈ c.subTypes, T t) (env0 env : Env) (hc : consistent C c env = true) :
-    ∃ bs env' d, encodeCmd C c env = .ok bs ∧ envAfterMarshal C c env = .ok env' ∧
-      decodeCmd C c env0 bs = .ok d ∧ ∀ f ∈ c.fields.map (·.1), d.get f = env'.get f := by
+    ∃ (m u : List Slot) (sM : MState) (d : Env),
+      MirrorFacts c m u ∧ runM C c env = .ok sM ∧ sM.head = [] ∧
+      sM.P = layoutBytes C sM.env (m.filter (·.blk == .P)) ∧ sM.D = layoutBytes C sM.env (m.filter (·.blk == .D)) ∧
+      (∀ sl ∈ m, SlotFit C T sM.env sl) ∧
+      decodeCmd C c env0 (paramBlock c.isAndX sM.P ++ dataBlock sM.D) = .ok d ∧
+      ((∀ f ∈ u.map Slot.field, d.get f = sM.env.get f) ∨ c.fields = []) := by
   obtain ⟨m, u, F⟩ := mirror_facts hm
   unfold consistent at hc
   split at hc
@@ -140,12 +159,6 @@ theorem mirror_roundtrip_core {C : Codecs} {T : String → Prop} (hC : LawfulCod
     · exact hfD (fun s hs => hfitM s (List.mem_filter.mp hs).1) sl (by have := mem_filter_blk u sl hsl; rwa [hb] at this)
   have handx : c.isAndX = true → sM.P = [] := by
     intro ha; rw [hP, F.andx ha]; rfl
-  -- the envelope
-  have henc : encodeCmd C c env = .ok (paramBlock c.isAndX sM.P ++ dataBlock sM.D) := by
-    simp only [encodeCmd, show runM C c env = .ok sM from hrun, hhead, List.nil_append]
-  have henv : envAfterMarshal C c env = .ok sM.env := by
-    simp only [envAfterMarshal, show runM C c env = .ok sM from hrun]
-  refine ⟨paramBlock c.isAndX sM.P ++ dataBlock sM.D, sM.env, ?_⟩
   have hsp := splitParams_paramBlock c.isAndX sM.P (dataBlock sM.D) heven hwc handx
   have hsd := splitData_dataBlock sM.D hdl
   -- unmarshal side
@@ -179,21 +192,84 @@ theorem mirror_roundtrip_core {C : Codecs} {T : String → Prop} (hC : LawfulCod
     simp only []
     rw [hsd]
     exact hd
-  refine ⟨d, henc, henv, hdec, ?_⟩
-  intro f hf
+  refine ⟨m, u, sM, d, F, hrun, hhead, hP, hD, hfitM, hdec, ?_⟩
   rcases hne with (hp | hdd) | hemp
-  · have hPne : sM.P ≠ [] := by intro e; rw [e] at hp; simp at hp
-    refine hagree (Or.inl ⟨?_, ?_⟩) f (Or.inr (F.covered f hf))
+  · left
+    intro f hf
+    have hPne : sM.P ≠ [] := by intro e; rw [e] at hp; simp at hp
+    refine hagree (Or.inl ⟨?_, ?_⟩) f (Or.inr hf)
     · have : u.filter (·.blk == .P) ≠ [] := by
         intro e; apply hPne; rw [hP, hbP, e]; rfl
       simpa using this
     · show andxBytes c.isAndX ++ sM.P ≠ []
       intro e; exact hPne (List.append_eq_nil_iff.mp e).2
-  · have hDne : sM.D ≠ [] := by intro e; rw [e] at hdd; simp at hdd
-    refine hagree (Or.inr ⟨?_, hDne⟩) f (Or.inr (F.covered f hf))
+  · left
+    intro f hf
+    have hDne : sM.D ≠ [] := by intro e; rw [e] at hdd; simp at hdd
+    refine hagree (Or.inr ⟨?_, hDne⟩) f (Or.inr hf)
     have : u.filter (·.blk == .D) ≠ [] := by
       intro e; apply hDne; rw [hD, hbD, e]; rfl
     simpa using this
-  · rw [hemp] at hf; cases hf
+  · exact Or.inr hemp
+
+/-- **Generic round trip of a mirror-image command** (the property theorem `Manticore.C04.mirror_roundtrip`
+    is this statement). -/
+theorem mirror_roundtrip_core {C : Codecs} {T : String → Prop} (hC : LawfulCodecs C T) (c : Cmd)
+    (hm : Mirror c = true) (hT : ∀ t ∈ c.subTypes, T t) (env0 env : Env) (hc : consistent C c env = true) :
+    ∃ bs env' d, encodeCmd C c env = .ok bs ∧ envAfterMarshal C c env = .ok env' ∧
+      decodeCmd C c env0 bs = .ok d ∧ ∀ f ∈ c.fields.map (·.1), d.get f = env'.get f := by
+  obtain ⟨m, u, sM, d, F, hrun, hhead, _, _, _, hdec, hag⟩ := mirror_roundtrip_full hC c hm hT env0 env hc
+  refine ⟨paramBlock c.isAndX sM.P ++ dataBlock sM.D, sM.env, d, ?_, ?_, hdec, ?_⟩
+  · simp only [encodeCmd, hrun, hhead, List.nil_append]
+  · simp only [envAfterMarshal, hrun]
+  · intro f hf
+    rcases hag with h | h
+    · exact h f (F.covered f hf)
+    · rw [h] at hf; cases hf
+
+/-- **Re-encoding**: marshalling the decoded fields again yields the same bytes. -/
+theorem mirror_reencode_core {C : Codecs} {T F : String → Prop} (hC : LawfulCodecs C T) (hF : LawfulFmt C F) (c : Cmd)
+    (hm : Mirror c = true) (hre : Reencodable c = true) (hT : ∀ t ∈ c.subTypes, T t) (hFt : ∀ t ∈ c.fmtTypes, F t)
+    (env0 env : Env) (hc : consistent C c env = true) :
+    ∃ bs d, encodeCmd C c env = .ok bs ∧ decodeCmd C c env0 bs = .ok d ∧ encodeCmd C c d = .ok bs := by
+  obtain ⟨m, u, sM, d, Fc, hrun, hhead, hP, hD, hfit, hdec, hag⟩ := mirror_roundtrip_full hC c hm hT env0 env hc
+  have henc : encodeCmd C c env = .ok (paramBlock c.isAndX sM.P ++ dataBlock sM.D) := by
+    simp only [encodeCmd, hrun, hhead, List.nil_append]
+  refine ⟨_, d, henc, hdec, ?_⟩
+  unfold Reencodable at hre
+  rw [Fc.lm, Bool.and_eq_true] at hre
+  obtain ⟨hreM, hdecl⟩ := hre
+  rcases hag with hag | hemp
+  · -- the decoded fields agree with the sender's on every slot of the layout
+    have hmem : ∀ sl ∈ m, sl.field ∈ u.map Slot.field := by
+      intro sl hsl
+      have h1 : sl.field ∈ (m.filter (·.blk == sl.blk)).map Slot.field :=
+        List.mem_map_of_mem (mem_filter_blk m sl hsl)
+      have h2 : (m.filter (·.blk == sl.blk)).map Slot.field = (u.filter (·.blk == sl.blk)).map Slot.field := by
+        cases sl.blk
+        · exact agreeAll_fields _ _ Fc.agP
+        · exact agreeAll_fields _ _ Fc.agD
+      rw [h2] at h1
+      obtain ⟨sl', hsl', he⟩ := List.mem_map.mp h1
+      exact List.mem_map.mpr ⟨sl', (List.mem_filter.mp hsl').1, he⟩
+    obtain ⟨t', hr, _, hP', hD', hH'⟩ := runMStmts_again (T := T) hF c.isAndX c.marshal m { env := env } sM { env := d }
+      (u.map Slot.field) Fc.lm Fc.stable hreM hFt hrun hfit hmem hag
+    simp only [List.nil_append] at hP' hD'
+    have hrun' : runM C c d = .ok t' := hr
+    simp only [encodeCmd, hrun', hH', hP', hD', ← hP, ← hD, List.nil_append]
+  · -- no declared field: the marshal program is empty
+    have hm0 : m = [] := by
+      rw [hemp] at hdecl
+      cases m with
+      | nil => rfl
+      | cons a _ => simp at hdecl
+    subst hm0
+    have hnil := layoutM_nil_reencodable c.marshal Fc.lm hreM
+    have h1 : runM C c d = .ok { env := d } := by unfold runM; rw [hnil, runMStmts]
+    have h2 : runM C c env = .ok { env := env } := by unfold runM; rw [hnil, runMStmts]
+    rw [h2] at hrun
+    injection hrun with hrun
+    subst hrun
+    simp only [encodeCmd, h1, List.nil_append]
 
 end Manticore.SmbIR
